@@ -14,6 +14,7 @@ import (
 	"testing/cryptotest"
 	"testing/synctest"
 	"time"
+	_ "unsafe" // go:linkname
 )
 
 // Check describes one property check.
@@ -70,10 +71,18 @@ func heartbeat() {
 	_ = os.WriteFile(beatPath, []byte(strconv.FormatUint(beatCount, 10)), 0o644)
 }
 
+// verifResetRand is defined in the runtime overlay the driver builds every check with: it puts
+// the runtime's random generators (map iteration, select order, the tie-break of timers due at
+// one fake instant) back to their start values.
+//
+//go:linkname verifResetRand runtime.verifResetRand
+func verifResetRand()
+
 func (c *Check) Exec(t *testing.T, tape *Tape, trace bool) (out *Outcome) {
 	e := newEnv(t, tape, trace)
 	heartbeat()
-	ticks = 0 // the yield points of core.Tick are a function of the run, not of the process
+	verifResetRand() // every execution starts from the same generator states: a run is a function of its tape
+	ticks = 0        // the yield points of core.Tick are a function of the run, not of the process
 	tape.OnOverrun = func() { e.Infra("replayed tape overrun: a harness loop does not terminate on zero draws") }
 	body := func(t *testing.T) {
 		e.T = t
